@@ -27,6 +27,7 @@ type Sink struct {
 	FailAt    int   // 1-based call index that fails; 0 = never
 	FailErr   error // error returned at FailAt (and afterwards)
 	Partial   bool  // the failing call reports len(p)/2 bytes written
+	FullCount bool  // the failing call reports len(p) bytes written together with the error
 	AfterFail int   // calls received after the first failure
 	failed    bool
 	Hook      func() // called at every Write (yield injection)
@@ -43,6 +44,10 @@ func (s *Sink) Write(p []byte) (int, error) {
 	}
 	if s.FailAt > 0 && s.Calls == s.FailAt {
 		s.failed = true
+		if s.FullCount {
+			s.Buf.Write(p)
+			return len(p), s.FailErr
+		}
 		if s.Partial {
 			n := len(p) / 2
 			s.Buf.Write(p[:n])
